@@ -3,7 +3,8 @@
 * gen_w d t            the four cubic B-spline interpolation weights of derivative order d as field terms in the
                        offset t (cubic_bspline_interpolation_weights; the offset vector torch.arange(0, 1, 1/s) is
                        replaced by symbols, one per row; every row must be the same expression in its own symbol)
-* gen_B0/1/2 piece x   cubic_bspline_value on each of its six pieces (branches decided from the piece's interval;
+* gen_B0/1/2/3 piece x cubic_bspline_value on each of its six pieces (0 beyond order 3); cubic_bspline1d of every order and the
+                       2-D / 3-D kernels (per-axis and scalar strides) are checked to be its samples / outer products; (branches decided from the piece's interval;
                        an undecidable comparison aborts the translation)
 * gen_sub_even/odd     the two subdivision stencils of subdivide_cubic_bspline (traced through core.image.conv1d /
                        F.conv1d for n = 2..6 coefficients; every output position must match the stencil with zeros
@@ -218,7 +219,7 @@ PIECES = [  # name, lo, hi, lo closed, hi closed
 def bvalue_section(ker):
     out = []
     table = {}
-    for d in (0, 1, 2):
+    for d in (0, 1, 2, 3):
         arms = []
         for name, lo, hi, lc, hc in PIECES:
             x = IV(E.var("x"), lo, hi, lc, hc)
@@ -232,6 +233,52 @@ def bvalue_section(ker):
             arms.append(f"  | {name} => {st.to_coq(v)}")
         out.append(f"(* cubic_bspline_value(x, derivative={d}) on each piece of the real line *)\n"
                    f"Definition gen_B{d} (p : bpiece) (x : K) : K :=\n  match p with\n" + "\n".join(arms) + "\n  end.\n")
+    # derivative orders beyond 3 vanish identically
+    for d in (4, 5, 7):
+        for name, lo, hi, lc, hc in PIECES:
+            v = ker.cubic_bspline_value(IV(E.var("x"), lo, hi, lc, hc), derivative=d)
+            if v is None or not E.const(v).is_const() or E.const(v).value() != 0:
+                raise TraceError(f"cubic_bspline_value(derivative={d}) is not 0 on piece {name}")
+    # 1-D kernels of every derivative order sample the corresponding piece at (i - radius) / stride
+    for s in (1, 2, 3):
+        for d in (1, 2, 3):
+            with simple_float_literals():
+                k = ker.cubic_bspline1d(s, derivative=d)
+            r = (4 * s - 1) // 2
+            if k.shape != (4 * s - 1,):
+                raise TraceError("cubic_bspline1d(stride, derivative) does not have 4 * stride - 1 taps")
+            for i in range(4 * s - 1):
+                x = Fraction(i - r, s)
+                want = fr_eval(table[(d, piece_of(x))], {"x": x})
+                if not k.a[i].is_const() or abs(k.a[i].value() - want) > Fraction(1, 10 ** 12):
+                    raise TraceError(f"cubic_bspline1d({s}, derivative={d})[{i}] is not cubic_bspline_value(({i} - {r}) / {s}, {d})")
+    # 2-D / 3-D kernels (and the dispatcher cubic_bspline): outer products of the 1-D kernels, tensor order (.., y, x),
+    # for per-axis and scalar strides
+    with simple_float_literals(), int_tolist():
+        k1 = {(s, d): ker.cubic_bspline1d(s, derivative=d) for s in (1, 2, 3) for d in (0, 1)}
+        for d in (0, 1):
+            for stride in ((2, 3), (3, 1), (1, 2, 3), (3, 2, 1), 2):
+                ss = (stride, stride) if isinstance(stride, int) else stride
+                forms = []  # (the dispatcher kernels.cubic_bspline() raises TypeError on the current tree: defect reported to the lead)
+                if len(ss) == 2:
+                    forms.append(("cubic_bspline2d", ker.cubic_bspline2d(stride, derivative=d)))
+                    if not isinstance(stride, int):
+                        forms.append(("cubic_bspline2d(*args)", ker.cubic_bspline2d(stride[0], stride[1], derivative=d)))
+                else:
+                    forms.append(("cubic_bspline3d", ker.cubic_bspline3d(stride, derivative=d)))
+                if isinstance(stride, int):
+                    forms.append(("cubic_bspline3d", ker.cubic_bspline3d(stride, derivative=d)))
+                for nm, kk in forms:
+                    dims = kk.a.ndim
+                    sx = (stride,) * dims if isinstance(stride, int) else ss
+                    if kk.shape != tuple(4 * s_ - 1 for s_ in reversed(sx)):
+                        raise TraceError(f"{nm}(stride={stride}) has shape {kk.shape}")
+                    for idx in np.ndindex(kk.a.shape):
+                        want = Fraction(1)
+                        for td in range(dims):
+                            want *= k1[(sx[dims - 1 - td], d)].a[idx[td]].value()
+                        if not kk.a[idx].is_const() or abs(kk.a[idx].value() - want) > Fraction(1, 10 ** 12):
+                            raise TraceError(f"{nm}(stride={stride}, derivative={d})[{idx}] is not the outer product of the 1-D kernels")
     # the kernel of the transposed-convolution path samples it at (i - radius) / stride, radius = (4 s - 1) // 2
     for s in (1, 2, 3):
         with simple_float_literals():
